@@ -182,7 +182,9 @@ def build_check(ck, th=None):
         if os.path.exists(exe):
             return exe
         os.makedirs(bdir, exist_ok=True)
-        for old in glob.glob(os.path.join(bdir, tag + "-*")):
+        # keep the newest few binaries of this harness (concurrent runs against other trees may be using theirs)
+        olds = sorted(glob.glob(os.path.join(bdir, tag + "-*")), key=os.path.getmtime, reverse=True)
+        for old in olds[5:]:
             try: os.remove(old)
             except OSError: pass
         inc = ["-I" + os.path.join(REPO, "include"), "-I" + os.path.join(REPO, "src"), "-I" + VERIF, "-I" + os.path.join(VERIF, "engine")]
